@@ -193,6 +193,19 @@ func TestVerifC02(t *testing.T) {
 					case *pub.Activity:
 						check(x.Actor(), depth+1)
 						check(x.Target(), depth+1)
+					case *pub.Actor:
+						// an actor that is displayed under an identifier must be what that identifier's home serves under that very id
+						// (a redirecting address, or a document without an id, gives nobody an identity on that host)
+						if id := x.Identifier(); id != nil {
+							c.Count("actor_identities_checked", 1)
+							w, ok := g.Doc(id.String())
+							wid, _ := w["id"].(string)
+							if !ok || wid != id.String() {
+								c.Violation("provenance:actor-identity-not-served-by-its-home", fmt.Sprintf("actor %q is displayed with the identifier %s, but that address does not serve a document with that id", wk.StripSGR(x.Name()), id), d)
+							} else if wn, _ := w["name"].(string); wn != "" && !strings.Contains(wk.StripSGR(x.Name()), wn) {
+								c.Violation("provenance:item-differs-from-home", fmt.Sprintf("actor %s is displayed as %q, its home serves %q", id, wk.StripSGR(x.Name()), wn), d)
+							}
+						}
 					}
 					ps, _ := t.Parents(2)
 					for _, p := range ps {
